@@ -200,6 +200,16 @@ Definition put (s : dstate) (l : lease) : dstate := set_tbl s (tset l (tbl s)).
    function of the state, so the model starts the cursor at FirstIP. *)
 Definition init (c : cfg) : dstate := mkSt [] (n_first c false) (n_first c true) (sess_init c).
 
+(* (Config).New when a lease file written under other prefix lengths (hb home, nb netfilter; same
+   addresses, empty lease list) exists: loadConfig rebuilds both subnets from the file; configChanged
+   (as repaired by e01fd08) compares the whole masked prefix, gateway, DNS and server id, so the
+   loaded subnets are kept only when the prefix lengths coincide as well. *)
+Definition loaded_cfg (c : cfg) (hb nb : N) : cfg :=
+  if (pnet (c_homeip c) hb =? pnet (c_homeip c) (c_homebits c)) && (hb =? c_homebits c)
+     && (pnet (c_nfip c) nb =? pnet (c_nfip c) (c_nfbits c)) && (nb =? c_nfbits c)
+  then mkCfg (c_mode c) (c_hostip c) (c_hostmac c) (c_routerip c) (c_routermac c) (c_homeip c) hb (c_nfip c) nb (c_dns c)
+  else c.
+
 (* findByIP: first lease in map order whose Addr.IP equals x *)
 Definition findByIP (ch : nat) (t : list lease) (x : ip) : option lease :=
   let ms := filter (fun l => oeqb (l_ip l) (Some x)) t in
@@ -227,7 +237,8 @@ Inductive op :=
 | ORelease (m : dmsg)
 | OCapture (m : mac)
 | OUncapture (m : mac)
-| OTick (now : Z).
+| OTick (now : Z)
+| OSetExp (k : cid) (t : Z).    (* verif hook VerifSetLeaseExpiry: DHCPExpiry of the lease under k := t *)
 
 Inductive rtype := ROffer | RAck | RNak.
 Record reply := mkReply {
@@ -236,8 +247,12 @@ Record reply := mkReply {
   r_dstmac : mac; r_dstip : ip
 }.
 
+(* getClientID: option 61, else (absent or zero-length, fix ec7166b) chaddr; the empty byte string is the N 1 *)
 Definition getcid (m : dmsg) : cid :=
-  match m_cid m with Some k => k | None => 281474976710656 + m_chaddr m end.
+  match m_cid m with
+  | Some k => if k =? 1 then 281474976710656 + m_chaddr m else k
+  | None => 281474976710656 + m_chaddr m
+  end.
 
 (* AppendOptions: the codes of the effective order first (each at most once), then the rest
    (Go map order; canonical here: ascending code) *)
@@ -470,6 +485,7 @@ Definition step (c : cfg) (ch : ip -> nat) (s : dstate) (o : op) : dstate * opti
   | OCapture x => (set_ss s (sess_capture (ss s) x), None)
   | OUncapture x => (set_ss s (sess_uncapture (ss s) x), None)
   | OTick now => (set_tbl s (freeLeases now (tbl s)), None)
+  | OSetExp k t => (match tget k (tbl s) with Some l => put s (set_exp l t) | None => s end, None)
   end.
 
 (* a history: each op with the map-order oracle in force during it *)
